@@ -109,11 +109,17 @@ var c02Kinds = []c02Kind{
 		Locate: func(fs []*dst.File) [2]listRef {
 			return [2]listRef{{fs[0].Decls[0].(*dst.GenDecl).Specs[0].(*dst.ValueSpec).Values[0], "Args"}, {fs[0].Decls[1].(*dst.GenDecl).Specs[0].(*dst.ValueSpec).Values[0], "Args"}}
 		}},
-	{Name: "clause", Inner2: map[int]string{2: "default:\nb() // it2\n// id2\nc()"}, Files: []string{"package p\n\nfunc f() {\nswitch v {\n%A%\n}\nswitch w {\n%B%\n}\n}\n"},
+	{Name: "clause", Inner2: map[int]string{1: "case 2, 3:\n\t\t// id1\n\t\t// ie1", 2: "default:\nb() // it2\n// id2\nc()"}, Files: []string{"package p\n\nfunc f() {\nswitch v {\n%A%\n}\nswitch w {\n%B%\n}\n}\n"},
 		A: [][2]string{{"case 1:\na()", "case /*i0*/ 1:\na()"}, {"case 2, 3:", "case 2, /*i1*/ 3:"}, {"default:\nb()\nc()", "default:\nb( /*i2*/ )\nc()"}},
 		B: [][2]string{{"case 7:\nx()", "case /*i3*/ 7:\nx()"}, {"case 8:", "case /*i4*/ 8:"}},
 		Locate: func(fs []*dst.File) [2]listRef {
 			return [2]listRef{{nth(fs[0], "SwitchStmt", 0).(*dst.SwitchStmt).Body, "List"}, {nth(fs[0], "SwitchStmt", 1).(*dst.SwitchStmt).Body, "List"}}
+		}},
+	{Name: "commclause", Inner2: map[int]string{1: "case <-b:\n\t\t// id1\n\t\t// ie1", 2: "default:\nb() // it2\n// id2\nc()"}, Files: []string{"package p\n\nfunc f() {\nselect {\n%A%\n}\nselect {\n%B%\n}\n}\n"},
+		A: [][2]string{{"case <-a:\na()", "case <- /*i0*/ a:\na()"}, {"case <-b:", "case <- /*i1*/ b:"}, {"default:\nb()\nc()", "default:\nb( /*i2*/ )\nc()"}},
+		B: [][2]string{{"case v := <-x:\n_ = v", "case v := /*i3*/ <-x:\n_ = v"}, {"case y <- 1:", "case y <- /*i4*/ 1:"}},
+		Locate: func(fs []*dst.File) [2]listRef {
+			return [2]listRef{{nth(fs[0], "SelectStmt", 0).(*dst.SelectStmt).Body, "List"}, {nth(fs[0], "SelectStmt", 1).(*dst.SelectStmt).Body, "List"}}
 		}},
 	{Name: "import", Files: []string{"package p\n\nimport (\n%A%\n)\n\nimport (\n%B%\n)\n"},
 		A: [][2]string{{"\"a\"", "/*i0*/ \"a\""}, {"b \"b\"", "b /*i1*/ \"b\""}, {"_ \"c\"", "_ /*i2*/ \"c\""}},
@@ -157,7 +163,12 @@ func (k *c02Kind) chunk(e int, cfg int, sep int) string {
 		text = el[1]
 	}
 	if cfg == cfgInner2 {
-		text = k.Inner2[e]
+		// elements without a second inner layout use their first one
+		if t, ok := k.Inner2[e]; ok {
+			text = t
+		} else {
+			text = el[1]
+		}
 	}
 	if sep == 2 { // inline: block comments only
 		s := text
@@ -314,7 +325,7 @@ func init() {
 	core.Register(&core.Prop{
 		ID:    "C02",
 		Level: "model_checking",
-		Rule: "9 list kinds x two lists (3+2 elements of different shapes) x comment layouts (7 configurations per element: none, 1 or 2 leading lines, trailing, leading+trailing, inner, inner nested list with trailing + dangling comment) x separator {newline, blank line, inline}; " +
+		Rule: "10 list kinds (select clauses included; a clause whose body holds only comment lines among the inner layouts) x two lists (3+2 elements of different shapes) x comment layouts (7 configurations per element: none, 1 or 2 leading lines, trailing, leading+trailing, inner, inner nested list with trailing + dangling comment) x separator {newline, blank line, inline}; " +
 			"layouts whose elements do not all carry the same (Before, After) are outside the quantifier (counted); explicit-state BFS from the identity arrangement over swap/delete/duplicate-with-Clone (after, at end)/move-to-other-list, " +
 			"depth 1 on all layouts and depth 2 on 49 per kind (quick); depth 2 on all layouts and depth 3 on the 7 uniform ones per kind (thorough); successor = fresh parse + replay; oracle: print (plain, and by a Restorer with Extras) == gofmt(text whose chunks were edited the same way); equal arrangements reached by different histories print equally; " +
 			"state = (kind, layout, arrangement of element ids); non-trivial = arrangement differing from the identity with at least one comment",
@@ -419,9 +430,14 @@ func runC02(ctx *core.Ctx, unit int) {
 // only trailing/inner comments are well-defined there; comments inside an import spec are moved to the
 // end of the spec by gofmt's import sorting (format.Node), which is not dst's doing.
 func c02LayoutInScope(k *c02Kind, cfg [5]int, sep int) bool {
+	inner2, inner2Defined := false, false
 	for e, c := range cfg {
 		if c == cfgInner2 {
-			if _, ok := k.Inner2[e]; !ok || sep == 2 {
+			inner2 = true
+			if _, ok := k.Inner2[e]; ok {
+				inner2Defined = true
+			}
+			if sep == 2 || k.Name == "import" {
 				return false
 			}
 		}
@@ -431,6 +447,9 @@ func c02LayoutInScope(k *c02Kind, cfg [5]int, sep int) bool {
 		if k.Name == "import" && c == cfgInner {
 			return false
 		}
+	}
+	if inner2 && !inner2Defined {
+		return false // would repeat the layout with the first inner form
 	}
 	return true
 }
